@@ -91,7 +91,9 @@ Walk(rec, k, s) ==
     ELSE LET st == rec.steps[k]
              c  == Call(st)
              e  == Eff(s, c)
-             F  == StepFails(rec, st, e, c)
+             \* calls made inside one library call (MIMAS.combine_regions / intersect_regions apply a
+             \* documented sequence of operations) are not observable one by one: only the last is
+             F  == IF HasKey(st.obs, "skip") THEN <<>> ELSE StepFails(rec, st, e, c)
          IN IF F # <<>> THEN <<"step " \o ToString(k) \o " " \o st.op>> \o F
             ELSE Walk(rec, k + 1, e.S)
 
